@@ -123,14 +123,49 @@ pub fn gen_state(r: &mut Rng, o: &GenOpts) -> PushState {
         ix.current = if r.chance(4, 5) { r.below(d as u64 + 1) as usize } else { r.below(7) as usize };
         s.index_stack.push(ix);
     }
+    // vectors: now and then an item is a COPY of the one below it (as *.DUP leaves them), or differs from it in one
+    // element only: equal operands are a relation random generation practically never produces
     for _ in 0..depth(r, rich) {
-        s.bool_vector_stack.push(BoolVector::new(gen_bvec(r, 5)));
+        let v = match s.bool_vector_stack.get(0) {
+            Some(t) if r.chance(1, 4) => {
+                let mut c = t.values.clone();
+                if !c.is_empty() && r.chance(1, 3) {
+                    let k = r.below(c.len() as u64) as usize;
+                    c[k] = !c[k];
+                }
+                c
+            }
+            _ => gen_bvec(r, 5),
+        };
+        s.bool_vector_stack.push(BoolVector::new(v));
     }
     for _ in 0..depth(r, rich) {
-        s.int_vector_stack.push(IntVector::new(gen_ivec(r, 5)));
+        let v = match s.int_vector_stack.get(0) {
+            Some(t) if r.chance(1, 4) => {
+                let mut c = t.values.clone();
+                if !c.is_empty() && r.chance(1, 3) {
+                    let k = r.below(c.len() as u64) as usize;
+                    c[k] = c[k].wrapping_add(1);
+                }
+                c
+            }
+            _ => gen_ivec(r, 5),
+        };
+        s.int_vector_stack.push(IntVector::new(v));
     }
     for _ in 0..depth(r, rich) {
-        s.float_vector_stack.push(FloatVector::new(gen_fvec(r, 4)));
+        let v = match s.float_vector_stack.get(0) {
+            Some(t) if r.chance(1, 4) => {
+                let mut c = t.values.clone();
+                if !c.is_empty() && r.chance(1, 3) {
+                    let k = r.below(c.len() as u64) as usize;
+                    c[k] = if c[k].is_finite() { c[k] + 1.0 } else { 0.0 };
+                }
+                c
+            }
+            _ => gen_fvec(r, 4),
+        };
+        s.float_vector_stack.push(FloatVector::new(v));
     }
     // ring-buffer HISTORY: in a third of the states the three buffers have already been used - messages / graphs were
     // pushed and popped before - so that their read and write cursors stand anywhere in the ring (also on the last
@@ -267,6 +302,11 @@ pub fn gen_state(r: &mut Rng, o: &GenOpts) -> PushState {
         }
         s.configuration.max_points_in_random_expressions = *r.pick(&[25, 1, 2, 0, -7, 60, i32::MIN, i32::MAX]);
         s.configuration.new_erc_name_probability = *r.pick(&[0.001, 0.0, 0.5, 1.0]);
+        // limits no instruction is documented to consult while it runs: whatever their value, a single instruction
+        // must behave the same (the run loop reads the step / time / growth limits, nothing reads the point limit)
+        s.configuration.max_points_in_program = *r.pick(&[100, 0, 1, 3, 7, -5, i32::MAX]);
+        s.configuration.growth_cap = *r.pick(&[500, 0, 1, 3]);
+        s.configuration.eval_push_limit = *r.pick(&[1000, 0, 1, -1, 5]);
     }
     s
 }
